@@ -8,7 +8,7 @@
    casts them to; `hashed_fields` = ID, PrevAlh, Ts, Version, metadata bytes (version 1), NEntries,
    Eh, BlTxID, BlRoot.  Sessions against an arbitrary server: Proofs/Session.v. *)
 From V Require Import Proofs.History Proofs.Session Proofs.Binding Proofs.Linear
-  Proofs.Sound Proofs.Fork Proofs.HistoryB Proofs.Refuted Proofs.Gen Proofs.Complete Proofs.Unique Merkle.Sound Merkle.Verify.
+  Proofs.Sound Proofs.Fork Proofs.HistoryB Proofs.Refuted Proofs.Gen Proofs.Complete Proofs.CompleteFull Proofs.Unique Merkle.Sound Merkle.Verify.
 
 (* Alh commits to every hashed header field: two valid headers with the same Alh agree on all of
    them (so a header altered in any of these fields no longer matches a trusted Alh). *)
@@ -168,34 +168,26 @@ Theorem C01_linear_proof_complete :
 Proof. exact linear_proof_complete. Qed.
 Print Assumptions C01_linear_proof_complete.
 
-(* VerifyDualProof accepts the honest dual proof for EVERY well-formed history (any length, any lag
-   of the binary linking: inclusion, last-inclusion, linear and linear-advance parts are all
-   covered) and every 1 <= i <= j <= n — relative to the consistency terms `cons` being accepted by
-   ahtree.VerifyConsistency (their generator, AHtree.ConsistencyProof, is not modelled; the premise
-   is void when the source's BlTxID is 0). *)
+(* VerifyDualProof accepts the honest dual proof (gen_dual_proof_full: inclusion, consistency — the
+   proof AHtree.ConsistencyProof generates, coq/Merkle cons_ref —, last inclusion, linear and
+   linear-advance parts) for EVERY well-formed history (any length, any lag of the binary linking)
+   and every 1 <= i <= j <= n. No side condition. *)
 Theorem C01_dual_proof_complete :
   forall (H : bytes -> bytes), (forall x, length (H x) = 32%nat) ->
-  forall (hs : list txhdr) (cons : list bytes) (i j : N),
+  forall (hs : list txhdr) (i j : N),
     wf_hist H hs -> 1 <= i -> i <= j -> j <= lenN hs ->
-    (0 < h_bltxid (hd_at hs i) ->
-     verify_consistency H cons (h_bltxid (hd_at hs i)) (h_bltxid (hd_at hs j))
-                        (h_blroot (hd_at hs i)) (h_blroot (hd_at hs j)) = Ok true) ->
-    verify_dual_proof H (Some (gen_dual_proof H hs cons i j)) i j (A_at H hs i) (A_at H hs j) = Ok true.
-Proof. exact dual_proof_complete. Qed.
+    verify_dual_proof H (Some (gen_dual_proof_full H hs i j)) i j (A_at H hs i) (A_at H hs j) = Ok true.
+Proof. exact dual_proof_complete_full. Qed.
 Print Assumptions C01_dual_proof_complete.
 
 (* The same for VerifyDualProofV2 (headers with BlTxID = ID - 1, which the verifier demands). *)
 Theorem C01_dual_proof_v2_complete :
   forall (H : bytes -> bytes), (forall x, length (H x) = 32%nat) ->
-  forall (hs : list txhdr) (cons : list bytes) (i j : N),
+  forall (hs : list txhdr) (i j : N),
     wf_hist H hs -> 1 <= i -> i <= j -> j <= lenN hs ->
     h_bltxid (hd_at hs i) = i - 1 -> h_bltxid (hd_at hs j) = j - 1 ->
-    (i < j ->
-     (if i =? 1
-      then verify_consistency H cons i (j - 1) (leaf_for H (A_at H hs i)) (h_blroot (hd_at hs j))
-      else verify_consistency H cons (i - 1) (j - 1) (h_blroot (hd_at hs i)) (h_blroot (hd_at hs j))) = Ok true) ->
-    verify_dual_proof_v2 H (Some (gen_dual_proof_v2 H hs cons i j)) i j (A_at H hs i) (A_at H hs j) = Ok true.
-Proof. exact dual_proof_v2_complete. Qed.
+    verify_dual_proof_v2 H (Some (gen_dual_proof_v2_full H hs i j)) i j (A_at H hs i) (A_at H hs j) = Ok true.
+Proof. exact dual_proof_v2_complete_full. Qed.
 Print Assumptions C01_dual_proof_v2_complete.
 
 (* store.VerifyInclusion accepts Tx.Proof of every entry of every transaction (no side condition). *)
@@ -213,32 +205,59 @@ Print Assumptions C01_entry_inclusion_complete.
    history at max(trusted id, v). *)
 Theorem C01_client_accepts_honest :
   forall (H : bytes -> bytes), (forall x, length (H x) = 32%nat) ->
-  forall (hs : list txhdr) (cons : list bytes) (st : option (N * bytes)) (v : N),
+  forall (hs : list txhdr) (st : option (N * bytes)) (v : N),
     wf_hist H hs -> 1 <= v -> v <= lenN hs ->
     let s := match st with Some x => fst x | None => v end in
     (1 <= s /\ s <= lenN hs /\ (forall x, st = Some x -> snd x = A_at H hs s)) ->
     let i := N.min s v in let j := N.max s v in
-    (0 < h_bltxid (hd_at hs i) ->
-     verify_consistency H cons (h_bltxid (hd_at hs i)) (h_bltxid (hd_at hs j))
-                        (h_blroot (hd_at hs i)) (h_blroot (hd_at hs j)) = Ok true) ->
-    client_step H st v (gen_dual_proof H hs cons i j) = Ok (Some (j, A_at H hs j)).
-Proof. exact client_accepts_honest. Qed.
+    client_step H st v (gen_dual_proof_full H hs i j) = Ok (Some (j, A_at H hs j)).
+Proof. exact client_accepts_honest_full. Qed.
 Print Assumptions C01_client_accepts_honest.
 
-(* Towards consistency against an ARBITRARY server (partial): against one and the same root — which
-   need not be the root of any genuine tree — two accepted inclusion proofs of the SAME LENGTH for the
-   same position (i, j) carry the same payload. The full statement (without the length premise) is
-   refuted for the code as it stands (over-long proofs: session_consistency_v2_refuted); it becomes
-   this theorem once ahtree.VerifyInclusion pins the proof length as a function of (i, j). *)
-Theorem C01_inclusion_unique_same_length_partial :
+(* CONSISTENCY AGAINST AN ARBITRARY SERVER, as far as the code allows.
+   Against one and the same root — which need not be the root of any genuine tree — two accepted
+   inclusion proofs for the same position (i, j) carry the same payload (the proof length is a
+   function of (i, j) since /repo commit c59ab5b, so both proofs hash along the same directions). *)
+Theorem C01_inclusion_unique :
   forall (H : bytes -> bytes), (forall x, length (H x) = 32%nat) ->
   forall (t1 t2 : list bytes) (i j : N) (a b root : bytes),
-    len32 t1 -> len32 t2 -> length t1 = length t2 ->
+    len32 t1 -> len32 t2 ->
     verify_inclusion H t1 i j (leafh H a) root = true ->
     verify_inclusion H t2 i j (leafh H b) root = true ->
     a = b \/ Collision H.
-Proof. exact inclusion_unique_same_length. Qed.
-Print Assumptions C01_inclusion_unique_same_length_partial.
+Proof. exact inclusion_unique. Qed.
+Print Assumptions C01_inclusion_unique.
+
+(* READ-READ consistency: whatever a server sends, two proofs accepted by VerifyDualProof for the
+   same source transaction id against ONE trusted target state (tgt, talh) carry the same source Alh
+   (hence, by C01_alh_binding, the same header): under one trusted state a transaction id has one
+   verifiable content. *)
+Theorem C01_dual_proof_same_target_unique :
+  forall (H : bytes -> bytes), (forall x, length (H x) = 32%nat) ->
+  forall (p1 p2 : dual_proof) (src tgt : N) (a b talh : bytes) (t1 t2 : txhdr),
+    dp_tgt p1 = Some t1 -> dp_tgt p2 = Some t2 -> hdr_valid t1 = true -> hdr_valid t2 = true ->
+    len32 (dp_incl p1) -> len32 (dp_incl p2) ->
+    verify_dual_proof H (Some p1) src tgt a talh = Ok true ->
+    verify_dual_proof H (Some p2) src tgt b talh = Ok true ->
+    a = b \/ Collision H.
+Proof. exact dual_proof_same_target_unique. Qed.
+Print Assumptions C01_dual_proof_same_target_unique.
+
+(* The same for VerifyDualProofV2 (sourceTxID <> targetTxID). The FULL session statement (pairs
+   accepted under DIFFERENT states of one session agree) additionally needs the transport of
+   inclusion facts across a state advance, i.e. a consistency verifier that is exact in the old
+   size (fact (T) of Proofs/Session.v; C08 known finding) — and is refuted for VerifyDualProof on
+   lagging headers (Proofs/Refuted.v). *)
+Theorem C01_dual_proof_v2_same_target_unique :
+  forall (H : bytes -> bytes), (forall x, length (H x) = 32%nat) ->
+  forall (p1 p2 : dual_proof_v2) (src tgt : N) (a b talh : bytes) (t1 t2 : txhdr),
+    d2_tgt p1 = Some t1 -> d2_tgt p2 = Some t2 -> hdr_valid t1 = true -> hdr_valid t2 = true ->
+    len32 (d2_incl p1) -> len32 (d2_incl p2) -> src <> tgt ->
+    verify_dual_proof_v2 H (Some p1) src tgt a talh = Ok true ->
+    verify_dual_proof_v2 H (Some p2) src tgt b talh = Ok true ->
+    a = b \/ Collision H.
+Proof. exact dual_proof_v2_same_target_unique. Qed.
+Print Assumptions C01_dual_proof_v2_same_target_unique.
 
 (* NEGATIVE RESULTS about the code as it stands are in Proofs/Refuted.v (witnesses computed with the
    executable SHA-256, whose primitive-integer operations Print Assumptions would list; the file is
@@ -247,16 +266,11 @@ Print Assumptions C01_inclusion_unique_same_length_partial.
                                            for VerifyDualProof on headers whose binary linking lags
                                            (source.BlTxID < target.BlTxID < sourceTxID): a forged
                                            leaf enters the tree unrelated to the source's chain;
-     session_consistency_v2_refuted,       session consistency is FALSE for VerifyDualProofV2 and for
-     session_consistency_v1_overlong_refuted  VerifyDualProof on ORDINARY headers as well: against a root
-                                           that is not the root of a genuine tree of the claimed size,
-                                           ahtree.VerifyInclusion accepts over-long proofs (it checks
-                                           (i-1)>>len = (j-1)>>len only) and VerifyLastInclusion checks no
-                                           length, so one state commits to two Alh values at one position;
      dual_proof_v2_same_id_refuted         VerifyDualProofV2 with sourceTxID = targetTxID accepts
                                            two different Alh values;
-   and, fixed in /repo (d34d669): session_family_a_before_repair_refuted (the verifier before the
-   repair accepted a forged session on ordinary headers) with family_a_rejected (it no longer does). *)
+   and, fixed in /repo: (d34d669) session_family_a_before_repair_refuted (the verifier before the
+   repair accepted a forged session on ordinary headers) with family_a_rejected (it no longer does);
+   (c59ab5b) family_d_rejected (over-long inclusion proofs, VerifyDualProof and VerifyDualProofV2). *)
 
 (* Alh does not commit to NEntries beyond the uint16 cast of innerHash (header version 0). *)
 Theorem C01_alh_nentries_truncation_refuted :
